@@ -98,7 +98,7 @@ def judge(ctx, events, count=True):
 
 def run(ctx):
     q = ctx.quick
-    ctx.rule = ("a case is (document, fault set): every single fault and pair of faults of Loader.tla (container faults, 13 member faults at the first, "
+    ctx.rule = ("a case is (document, fault set): every single fault and pair of faults of Loader.tla (container faults, 14 member faults at the first, "
                 "middle and last archive member) materialised on real documents, plus truncation at random lengths and 1-4 random bit flips stratified "
                 "by zip region; distinct_nontrivial = distinct (document, fault set / damage) cases")
     ctx.assumptions = ["'loading the container' is ObjectStore(path): unzip, un-frame, decode archives, initialise the store; exceptions raised later while "
